@@ -117,3 +117,14 @@ pub fn vnd_is_replay() -> bool { false }
 
 /// returns `v` (assumed <= max) as a path constant: engine M forks over the values, natively the identity
 pub fn vnd_conc(v: u32, max: u32) -> u32 { let mut i = 0; while i < max { if v == i { return i; } i += 1; } max }
+
+/// engine M: fires the i-th scheduled timer entry if its guard is alive and it has not fired (returns whether it fired);
+/// natively the real timer thread fires by itself: wait long enough for every short delay used by the harnesses
+#[cfg(not(kani))]
+pub fn vnd_timer_fire(_i: u32) -> bool { std::thread::sleep(std::time::Duration::from_millis(350)); true }
+#[cfg(not(kani))]
+pub fn vnd_timer_alive(_i: u32) -> bool { true }
+#[cfg(kani)]
+pub fn vnd_timer_fire(_i: u32) -> bool { true }
+#[cfg(kani)]
+pub fn vnd_timer_alive(_i: u32) -> bool { true }
